@@ -144,6 +144,20 @@ def gen_c01(rnd, n, thorough=False):
         lines = ["create f 1 1 %d m 2 x 3f000000" % N, "upd f 0 %d %016x %d" % (t0, fbits(5.0), t0), _many('f', rnd.pick([0, -1]), nw, pts),
                  "fetch f 0 %d %d %d" % (nw - N, nw, nw), "sync f", "open f", "fetch f 0 %d %d %d" % (nw - N, nw, nw)]
         cases.append({'id': 'c01-chunkwrap-%d' % j, 'lines': lines, 'tags': {'layout': 'ring%d' % N, 'levels': 1, 'target': 0, 'ops': {'chunk_wrap': 1}}})
+    # after a sum whose first file (in name order) was never written while a later one holds data: a never-written
+    # archive -- of that file, of another file, of a new file -- still reads as empty
+    for j in range(2):
+        lay = [(1, 30), (5, 12)] if j == 0 else [(1, 20)]
+        ll = ["create s/i1/a0.wsp %s m 2 x 3f000000" % fmt_layout(lay), "sync s/i1/a0.wsp", "drop s/i1/a0.wsp",
+              "create s/i1/f1.wsp %s m 2 x 3f000000" % fmt_layout(lay),
+              "many s/i1/f1.wsp 0 @ 3 @ %016x @-2 %016x @-7 %016x" % (fbits(5.0), fbits(6.0), fbits(7.0)), "sync s/i1/f1.wsp", "drop s/i1/f1.wsp",
+              "create s/i2/z.wsp %s m 2 x 3f000000" % fmt_layout(lay), "sync s/i2/z.wsp", "drop s/i2/z.wsp",
+              "clisum base=s item=i1 src=*.wsp from=0 until=0 archive=-1 header=0 remote=%d" % j]
+        ll.append("open s/i2/z.wsp")          # (the command closed the driver's handles)
+        for a_ in range(len(lay)):
+            ll.append("fetch s/i2/z.wsp %d @-%d @ @" % (a_, lay[a_][0] * lay[a_][1] - 1))
+        ll += ["create g %s m 1 x 00000000" % fmt_layout(lay), "fetch g 0 @-15 @ @", "open s/i1/a0.wsp", "fetch s/i1/a0.wsp 0 @-15 @ @"]
+        cases.append({'id': 'c01-aftersum-%d' % j, 'lines': ll, 'tags': {'layout': 'aftersum', 'levels': len(lay), 'target': 0, 'ops': {'fetch_after_sum': 1}}})
     # ONE slice of points handed to two batch writes, a coarser archive first, then a finer one (times that are
     # no multiples of the coarser step): the finer archive holds the points under their own intervals
     for j in range(4):
@@ -617,6 +631,14 @@ def gen_c04(rnd, n, thorough=False):
             lines.append("fetch f %d %d %d %d" % (a, fr, rnd.randint(fr, now), now))
         lines += ["sync f", "open f", "fetch f %d %d %d %d" % (a, now - R, now, now)]
         cases.append({'id': 'c04-oldbase-%d' % j, 'lines': lines, 'tags': {'layout': lname, 'levels': k, 'fill': 'old', 'ops': {'base_2^31_old': len(lines)}}})
+    # the same fetches through a server (every archive, windows older than the finest retention): the answer has the
+    # shape of the local one
+    lay = [(1, 20), (5, 12), (30, 10)]
+    ll = ["create s/a.wsp %s m 2 x 3f000000" % fmt_layout(lay), "many s/a.wsp 0 @ 2 @ %016x @-3 %016x" % (fbits(1.0), fbits(2.0)), "sync s/a.wsp", "drop s/a.wsp"]
+    for a_, frm, until in [(1, '0', '0'), (2, '0', '0'), (-1, '@-50', '@-30'), (-1, '@-200', '@-100'), (1, '@-40', '@-25'), (2, '@-200', '@-31'), (0, '0', '0')]:
+        for rem in (1, 0):
+            ll.append("cliview src=s:a.wsp from=%s until=%s archive=%d header=%d remote=%d" % (frm, until, a_, rnd.pick([0, 1]), rem))
+    cases.append({'id': 'c04-remote', 'lines': ll, 'tags': {'layout': 'three_live', 'levels': 3, 'fill': 'partial', 'ops': {'remote_view': 14}}})
     return cases
 
 
@@ -696,7 +718,8 @@ def gen_c05(rnd, n, thorough=False):
                 lines += ["syncclosed f", "disk f", "open f"]
                 op = 'sync_after_close'
             elif r < 0.9:
-                lines += ["drop f", "disk f", "open f"]
+                # abandoned: closed without Sync, or forgotten altogether (the garbage collector runs)
+                lines += [rnd.pick(["drop f", "abandon f"]), "disk f", "open f"]
                 op = 'abandon'
             else:
                 lines += ["sync f", "open f"]
@@ -706,7 +729,7 @@ def gen_c05(rnd, n, thorough=False):
             a = rnd.randrange(k)
             _observe(rnd, lines, layout, [a], now, nwin=1, raw=False, op='dfetch')
             _observe(rnd, lines, layout, [a], now, nwin=1, raw=False)
-        lines += ["drop f", "disk f", "open f"]
+        lines += [rnd.pick(["drop f", "abandon f"]), "disk f", "open f"]
         _observe(rnd, lines, layout, list(range(k)), now, nwin=1)
         if rnd.chance(0.15):
             # the same file made unwritable for the process (mode 0444, effective uid dropped): what an
